@@ -1519,6 +1519,12 @@ func (p *pools) run(ctx *core.Ctx, raw json.RawMessage) {
 			core.Fatalf("bad C18 first-requests case: %v", err)
 		}
 		runFirst(ctx, &fc)
+	case "entropy":
+		var ec entropyCase
+		if err := json.Unmarshal(raw, &ec); err != nil {
+			core.Fatalf("bad C18 entropy case: %v", err)
+		}
+		runEntropy(ctx, &ec)
 	case "tag":
 		// the tag-shape clause is evaluated whenever an environment starts
 		var w struct {
